@@ -3,6 +3,42 @@ import sys, os, argparse, importlib, traceback
 from .common import MachineryError, repo_on_path
 
 
+ENV_FLAGS = ["-O", "-W", "error::DeprecationWarning"]
+
+
+def second_pass(pid, tier, cache):
+    """The same check once more in ANOTHER INTERPRETER MODE: python -O (assert statements are not compiled: a check that lives in
+    an assert is gone) with DeprecationWarnings as errors (a deprecated call on a normal path becomes an exception).  The
+    implementation-independent TLC runs (model checking, case generation) are taken from the first pass; everything that
+    touches the implementation is recorded and judged again.  Its coverage summary is added to the evidence of the first pass."""
+    import subprocess, json, tempfile
+    from .common import VERIF
+    evdir = tempfile.mkdtemp(prefix="verif_pass2_")
+    env = dict(os.environ)
+    env.update({"VERIF_ENVPASS": " ".join(ENV_FLAGS), "VERIF_TLC_CACHE": cache, "VERIF_EVIDENCE_FILE": os.path.join(evdir, pid + ".json")})
+    p = subprocess.run([sys.executable] + ENV_FLAGS + ["-m", "harness.main", pid, "--tier", tier], cwd=VERIF, env=env)
+    try:
+        outbase = os.environ.get("VERIF_OUT", VERIF)
+        evp = os.path.join(outbase, "evidence", pid + ".json")
+        ev = json.load(open(evp))
+        try:
+            ev2 = json.load(open(os.path.join(evdir, pid + ".json")))
+            c2 = ev2["coverage"]
+            ev["coverage"]["parts"]["second pass: python " + " ".join(ENV_FLAGS)] = {
+                "kind": "the whole check repeated in another interpreter mode (TLC runs that do not depend on the implementation re-used)",
+                "exit": p.returncode, "violations": ev2.get("violations"), "impl_events": c2.get("traces_validated_against_impl"),
+                "states": c2.get("states"), "wall_s": ev2.get("wall_s"), "known_findings_seen": c2.get("known_findings_seen")}
+            ev["violations"] = (ev.get("violations") or 0) + (ev2.get("violations") or 0)
+        except Exception as e:                               # noqa: BLE001
+            ev["coverage"]["parts"]["second pass: python " + " ".join(ENV_FLAGS)] = {"exit": p.returncode, "evidence": "not written: %s" % e}
+        with open(evp, "w") as f:
+            json.dump(ev, f, indent=1, default=str)
+    finally:
+        import shutil
+        shutil.rmtree(evdir, ignore_errors=True)
+    return p.returncode
+
+
 def main():
     ap = argparse.ArgumentParser()
     ap.add_argument("pid")
@@ -13,6 +49,15 @@ def main():
     mod = importlib.import_module("harness.checks." + a.pid.lower())
     try:
         if a.replay:
+            try:
+                import json as _json
+                fl = _json.load(open(a.replay)).get("python_flags") or ""
+            except Exception:                                # noqa: BLE001
+                fl = ""
+            if fl and os.environ.get("VERIF_ENVPASS") is None:
+                # the violation was found in the second pass: replay it in the same interpreter mode
+                env = dict(os.environ, VERIF_ENVPASS=fl)
+                os.execve(sys.executable, [sys.executable] + fl.split() + ["-m", "harness.main", a.pid, "--tier", a.tier, "--replay", a.replay], env)
             if hasattr(mod, "replay"):
                 sys.exit(mod.replay(a.replay))
             from .replay import replay as generic_replay
@@ -21,8 +66,22 @@ def main():
         # are then judged in a process where earlier calls have failed
         from . import errpaths, report as _report
         _report.PRELUDE = errpaths.failing_calls()
-        rep = mod.run(a.tier)
-        sys.exit(rep.finish())
+        second = os.environ.get("VERIF_ENVPASS") is None and os.environ.get("VERIF_SECOND_PASS", "1") != "0"
+        cache = None
+        if second:
+            import tempfile
+            cache = tempfile.mkdtemp(prefix="verif_tlccache_")
+            os.environ["VERIF_TLC_CACHE"] = cache
+        try:
+            rep = mod.run(a.tier)
+            rc = rep.finish()
+            if second and rc == 0:
+                rc = second_pass(a.pid, a.tier, cache)
+        finally:
+            if cache:
+                import shutil
+                shutil.rmtree(cache, ignore_errors=True)
+        sys.exit(rc)
     except (MachineryError, Exception) as e:
         from . import report
         if not isinstance(e, MachineryError):
